@@ -1224,3 +1224,101 @@ Proof.
       cbn [fst] in Hr. eapply Hstore in Er; [exact Er|]. apply Hr. reflexivity.
   - intros H; inversion H; subst. exact Ep.
 Qed.
+
+(** on success, [get_matches_with] is validate ∘ add_defaults ∘ add_env ∘ resolve_pending ∘ command line *)
+Theorem phase_order fuel' c toks st0 st :
+  get_matches_with (S fuel') c toks st0 = ROk st ->
+  exists st_c st1 st2,
+    cmdline_phase fuel' c toks st0 = ROk st_c
+    /\ resolve_pending c st_c = ROk st1 /\ mt_pending (mt st1) = None
+    /\ add_env c st1 = ROk st2 /\ mt_pending (mt st2) = None
+    /\ add_defaults c st2 = ROk st
+    /\ validate c (mt st) = VOk /\ validate c (mt st2) = VOk.
+Proof.
+  rewrite get_matches_with_unfold.
+  destruct (cmdline_phase fuel' c toks st0) as [st_c|e s|x] eqn:Ec.
+  2: { destruct (is_set s_ignore_errors c); [|discriminate]. cbn zeta.
+       destruct (add_env c s) as [s1|e1 s1|x1]; [| |discriminate];
+         match goal with |- context [add_defaults c ?S] => destruct (add_defaults c S) end; discriminate. }
+  2: discriminate.
+  destruct (resolve_pending c st_c) as [st1| |] eqn:E1; [|discriminate|discriminate]. cbn [rbind].
+  destruct (add_env c st1) as [st2| |] eqn:E2; [|discriminate|discriminate]. cbn [rbind].
+  destruct (add_defaults c st2) as [st3| |] eqn:E3; [|discriminate|discriminate]. cbn [rbind].
+  unfold vres_to_res. destruct (validate c (mt st3)) eqn:Ev; [|discriminate|discriminate].
+  intros H; inversion H; subst st3. clear H.
+  pose proof (resolve_pending_clears c st_c st1 E1) as P1.
+  destruct (add_env_frame c st1 st2 P1 E2) as [P2 _].
+  exists st_c, st1, st2. repeat split; try assumption.
+  destruct (defaults_inert c st2 st P2 E3) as [Hv _]. rewrite <- Hv. exact Ev.
+Qed.
+
+(** argument and group ids of the level are pairwise distinct (a validity condition of
+    [debug_asserts.rs]: "Argument names must be unique", "Argument group name must be unique") *)
+Definition ids_distinct (c : cmd) : Prop :=
+  NoDup (map a_id (c_args c)) /\ forall a, In a (c_args c) -> find_group c (a_id a) = None.
+
+Lemma nodup_map_inj {A B} (f : A -> B) : forall l x y,
+  NoDup (map f l) -> In x l -> In y l -> f x = f y -> x = y.
+Proof.
+  induction l as [|h t IH]; intros x y Hnd Hx Hy Hf; [destruct Hx|]. cbn [map] in Hnd. inversion Hnd; subst.
+  destruct Hx as [<-|Hx], Hy as [<-|Hy].
+  - reflexivity.
+  - exfalso. apply H1. rewrite Hf. apply in_map. exact Hy.
+  - exfalso. apply H1. rewrite <- Hf. apply in_map. exact Hx.
+  - apply IH; assumption.
+Qed.
+
+(** The precedence lattice, per argument of the level, on every successful parse:
+    - an argument that has an entry after the command line keeps exactly that entry;
+    - otherwise, if its environment variable is set, its entry holds exactly the (delimited)
+      value of the variable and is labelled [EnvVariable];
+    - otherwise its entry is what [default_choice] gives at its turn of the defaults phase,
+      labelled [DefaultValue], or it has no entry at all. *)
+Theorem precedence fuel' c toks st0 st :
+  ids_distinct c ->
+  get_matches_with (S fuel') c toks st0 = ROk st ->
+  exists st_c st1 st2,
+    cmdline_phase fuel' c toks st0 = ROk st_c /\ resolve_pending c st_c = ROk st1
+    /\ add_env c st1 = ROk st2 /\ add_defaults c st2 = ROk st
+    /\ forall pre a post, c_args c = pre ++ a :: post ->
+       match fm_get (a_id a) (mt_args (mt st1)) with
+       | Some m => fm_get (a_id a) (mt_args (mt st)) = Some m
+       | None =>
+           match a_env a with
+           | Some v => exists vs e, delimit c a [v] None = Some vs /\ vs <> []
+                         /\ fm_get (a_id a) (mt_args (mt st)) = Some e
+                         /\ m_source e = Some SEnv /\ m_raw e = [vs]
+           | None => exists st_a ch,
+                       fold_left (defaults_step c) pre (ROk st2) = ROk st_a
+                       /\ default_choice a (mt st_a) ch
+                       /\ match ch with
+                          | None => fm_get (a_id a) (mt_args (mt st)) = None
+                          | Some raw => exists vs e, delimit c a raw None = Some vs /\ vs <> []
+                                          /\ fm_get (a_id a) (mt_args (mt st)) = Some e
+                                          /\ m_source e = Some SDefault /\ m_raw e = [vs]
+                          end
+           end
+       end.
+Proof.
+  intros [Hnd Hng] H. destruct (phase_order _ _ _ _ _ H) as [st_c [st1 [st2 [Ec [E1 [P1 [E2 [P2 [E3 _]]]]]]]]].
+  exists st_c, st1, st2. repeat split; try assumption.
+  intros pre a post Hsplit.
+  assert (Hin : In a (c_args c)) by (rewrite Hsplit; apply in_or_app; right; left; reflexivity).
+  pose proof (Hng a Hin) as Hg.
+  destruct (add_env_frame c st1 st2 P1 E2) as [_ [_ [Ek [En [Ex Ea]]]]].
+  destruct (add_defaults_frame c st2 st P2 E3) as [_ [_ [_ [Dk _]]]].
+  destruct (fm_get (a_id a) (mt_args (mt st1))) as [m|] eqn:G1.
+  - apply Dk. apply Ek; assumption.
+  - destruct (a_env a) as [v|] eqn:Ee.
+    + pose proof (Ex a v Hin Ee Hg) as Hne.
+      destruct (fm_get (a_id a) (mt_args (mt st2))) as [e|] eqn:G2; [|contradiction].
+      destruct (En (a_id a) e Hg G1 G2) as [Se [_ [a' [v' [vs [Hin' [Hid [Ee' [Hd [Hvs Re]]]]]]]]]].
+      assert (a' = a) by (eapply nodup_map_inj; eassumption). subst a'.
+      rewrite Ee in Ee'. inversion Ee'; subst v'.
+      exists vs, e. repeat split; try assumption. apply Dk. exact G2.
+    + assert (G2 : fm_get (a_id a) (mt_args (mt st2)) = None).
+      { apply Ea; [exact Hg|exact G1|]. intros a' Hin' Hid.
+        assert (a' = a) by (eapply nodup_map_inj; eassumption). subst a'. exact Ee. }
+      destruct (add_defaults_decides c st2 st pre a post Hnd Hsplit P2 E3) as [st_a [Hf [_ Hdec]]].
+      destruct (Hdec G2) as [ch [Hch Hres]]. exists st_a, ch. repeat split; assumption.
+Qed.
